@@ -100,7 +100,8 @@ def build_tbl(
         )
         try:
             significant = int(integer + frac, base=base)
-        except ValueError:
+            return AS.Float(significant / base ** len(frac))
+        except (ValueError, ZeroDivisionError, OverflowError):
             raise error.UnsuspectedHangeulValueError(
                 metadata, f"다음 문자열을 실수값으로 변환할 수 없습니다: '{string}'"
             ) from None
